@@ -286,6 +286,12 @@ func (c *Ctx) ruleWriteShape() {
 						if fc.from.Index == e.To || ir.EdgeDominates(fc.fn, e, fc.from) {
 							behind = true
 						}
+						// the value is the one the variable had before the test and keeps when the
+						// branch that replaces it is not taken: it reaches the join along the
+						// append edge itself
+						if fc.to != nil && fc.from.Index == e.From && fc.to.Index == e.To {
+							behind = true
+						}
 					}
 					if fc.key != nil {
 						// an entry of a constant table selected by the outcome of the append test
